@@ -71,9 +71,12 @@ _WHERE = {
             "pre-order walk of the tree (each element opened and closed once, nested, self-closed exactly when a void "
             "name is childless); the real output for every enumerated shape (names cycling through the whole catalogue "
             "and all void names, hostile text and attribute values) and for seeded random trees is fed to an "
-            "independent HTML tokenizer and TLC compares the token events with ElementView(tree).",
+            "independent HTML tokenizer and TLC compares the token events with ElementView(tree), the tree being what the "
+            "caller handed to the constructors; the same objects are also rendered a second time after an attribute was "
+            "removed, after a failed rendering was repaired, and after children were added.",
             "Trusted: TLC/SANY, ElementView/Agree in spec/ParseBackOps.tla, the harness's HTML tokenizer (which defines "
-            "'tokenizes as HTML' here) and its projection of the real object tree, CPython.",
+            "'tokenizes as HTML' here, numeric references decoded as the HTML standard does) and the element tree the "
+            "harness derives from what it passes to the constructors, CPython.",
             "TLA+ spec (Render/RenderOps/ParseBackOps) model-checked with TLC; TLC-enumerated trees replayed into the "
             "code; tokenised real output validated by TLC trace spec (ParseTrace)"),
     "C14": ("children", "C14",
